@@ -159,6 +159,12 @@ fn ok<T>(r: Result<T>) -> Option<T> {
 	}
 }
 
+pub(crate) fn mk_table_tier(entry_size: u16, multipart: bool, ref_counted: bool, tier: u8) -> ValueTable {
+	let mut t = mk_table(entry_size, multipart, ref_counted, 1, 0);
+	t.id = TableId::new(0, tier);
+	t.file.id = t.id;
+	t
+}
 pub(crate) fn mk_table(entry_size: u16, multipart: bool, ref_counted: bool, filled: u64, last_removed: u64) -> ValueTable {
 	let id = TableId::new(0, if multipart { 255 } else { 3 });
 	ValueTable {
